@@ -136,7 +136,7 @@ def addrof_inst(const, pointee, tier):
 
 
 # ---------------------------------------------------------------- allocation
-def malloc_inst(elem, tier):
+def malloc_inst(elem, tier, offset_backend=False):
     TT = cs('rlbox::tainted<%s *, rlbox::vsbx>' % elem)
     esz = HOST_SIZE[elem]
     R = '((uintptr_t)$ret.data)'
@@ -148,8 +148,17 @@ def malloc_inst(elem, tier):
         ('frame', '__CPROVER_assigns()'),
     ]
     h = REGIONS + SB_DECL + '  int in_status; sb.sandbox_created = in_status; unsigned int in_count;\n  struct %s r = $ROOT(&sb, in_count);\n' % TT
-    return Inst('c03_malloc_in_sandbox_%s' % elem.replace(' ', '_'), 'rlbox_sandbox<vsbx>& s, uint32_t count', 's.malloc_in_sandbox<%s>(count);' % elem, cl, h,
-                leaves=['dynamic_check', 'vsbx.impl_malloc_in_sandbox', CTX_LEAF, 'vsbx.impl_is_pointer_in_sandbox_memory', 'vsbx.impl_is_in_same_sandbox'],
+    ctx = CTX_LEAF
+    if offset_backend:
+        # a backend of the plain base+offset kind (like the suite's test backend): an out-of-range representation handed back
+        # by a hostile allocator translates to an address *outside* the region, so the invariant rests on malloc_in_sandbox's
+        # own checks rather than on the backend's translation
+        ctx = ('get_unsandboxed_pointer(base+offset backend: may leave the region)', _is_named('get_unsandboxed_pointer'),
+               sb_req('$this') + [('null_maps_to_null', '__CPROVER_ensures($0 == 0 ==> (uintptr_t)$ret == 0)'),
+                                  ('plain_offset', '__CPROVER_ensures($0 != 0 ==> MI((uintptr_t)$ret) == MI(V_BASE[$this->base0.slot]) + MI($0))'),
+                                  ('frame', '__CPROVER_assigns()')])
+    return Inst('c03_malloc_in_sandbox_%s%s' % (elem.replace(' ', '_'), '_offset_backend' if offset_backend else ''), 'rlbox_sandbox<vsbx>& s, uint32_t count', 's.malloc_in_sandbox<%s>(count);' % elem, cl, h,
+                leaves=['dynamic_check', 'vsbx.impl_malloc_in_sandbox', ctx, 'vsbx.impl_is_pointer_in_sandbox_memory', 'vsbx.impl_is_in_same_sandbox'],
                 prop=PROP, root_name='malloc_in_sandbox', tier=tier, pre=PRE_GHOST, replay={'kind': 'malloc', 'elem': elem, 'esz': esz})
 
 
@@ -225,6 +234,7 @@ def units(tier):
         insts.append(addrof_inst(True, pointee, tier))
     for elem in (['int'] if tier == 'quick' else ['int', 'char', 'long', 'double']):
         insts.append(malloc_inst(elem, tier))
+        insts.append(malloc_inst(elem, tier, offset_backend=True))
     insts += arith_insts(tier)
     # &(*parr)[i] / &p->arr[i]: element cells of an in-sandbox array stay inside the array object (contract of C17),
     # hence inside the sandbox whenever the array cell is (cell_inv of the whole array)
